@@ -187,21 +187,25 @@ Definition nosave_list : list string :=
 Definition nopublish (t : string) : bool := mem_str t nopublish_list.
 Definition nosave (t : string) : bool := mem_str (to_lower t) nosave_list.
 
-(* a configuration entry: (key, canonical rendering of the value) *)
-Definition entry := (string * string)%type.
+(* Values (message texts, rendered objects, configuration values) are compared for equality only: the
+   harness interns them, a value is the number of a distinct string (0 = the empty string, negative =
+   the constants below).  Tags and configuration keys stay strings (they are lower-cased and looked up
+   in the lists above). *)
+Definition value := Z.
+(* a configuration entry: (key, value) *)
+Definition entry := (string * value)%type.
 Definition config := list entry.
 
-(* the three keys saveState injects (values as canonical JSON text) *)
-Definition comment1 : string :=
-  """DASTARD configuration file. Written and read by DASTARD."""%string.
-Definition comment2 : string :=
-  """Human intervention by experts is permitted but not expected."""%string.
-(* setupViper: viper.SetDefault("Verbose", false) *)
-Definition viper_defaults : config := [("verbose", "false")]%string.
+(* the three keys saveState injects: "DASTARD configuration file. Written and read by DASTARD." = -1,
+   "Human intervention by experts is permitted but not expected." = -2, the time of day = an input *)
+Definition comment1 : value := -1.
+Definition comment2 : value := -2.
+(* setupViper: viper.SetDefault("Verbose", false);  false = -3 *)
+Definition viper_defaults : config := [("verbose"%string, -3)].
 
 Record sys := {
-  objs : list (string * string);    (* lastMessages: tag -> object (rendered canonically by the harness) *)
-  texts : list (string * string);   (* lastMessageStrings: tag -> JSON text *)
+  objs : list (string * value);     (* lastMessages: tag -> object (rendered canonically by the harness) *)
+  texts : list (string * value);    (* lastMessageStrings: tag -> JSON text *)
   armed : bool;                     (* saveStateOnceTimer created/reset and not yet fired *)
   v_config : config;                (* viper: what ReadInConfig read at start-up (keys lower case) *)
   v_over : config;                  (* viper: the override layer filled by viper.Set (keys lower case) *)
@@ -216,31 +220,38 @@ Definition all_settings (y : sys) : config :=
   overlay (v_over y) (overlay (v_config y) viper_defaults).
 
 Inductive event :=
-| Update (tag obj text : string)    (* clientMessageChan <- ClientUpdate{tag, state}; text = json.Marshal(state) *)
+| Update (tag : string) (obj text : value)   (* clientMessageChan <- ClientUpdate{tag, state}; text = json.Marshal(state) *)
 | SendAll                           (* tag "SENDALL" *)
 | Wait                              (* the environment lets time pass until a save happens (or gives up) *)
-| SaveTick (now : string) (faults : list bool).   (* a save timer fired: saveState(lastMessages) *)
+| SaveTick (now : value) (faults : list bool)     (* a save timer fired: saveState(lastMessages) *)
+| Restart.                          (* a second dastard is started on the directory as it is now (RunRPCServer
+                                       and PrepareRun restore what they find); the running one is not affected *)
 
 Inductive out :=
-| Published (l : list (string * string))       (* (topic, body) sent on the PUB socket *)
+| Published (l : list (string * value))        (* (topic, body) sent on the PUB socket *)
 | Waited (saved : bool)                        (* is a save due? *)
 | Saved (trace : list (fs entry))              (* directory before the save and after each operation *)
-        (reads : list (option config)).        (* what start-up would read from each of them *)
+        (reads : list (option config))         (* what start-up would read from each of them *)
+| Restored (l : list (string * value)).        (* what the restarted dastard restored, by configuration key *)
+
+(* the keys RunRPCServer (and PrepareRun, for "trigger") restore *)
+Definition restorable_keys : list string :=
+  ["abaco"; "lancero"; "roach"; "simpulse"; "status"; "tesmapfile"; "triangle"; "trigger"; "writing"]%string.
 
 (* func publish *)
-Definition publish (tag text : string) : list (string * string) :=
+Definition publish (tag : string) (text : value) : list (string * value) :=
   if nopublish tag then [] else [(tag, text)].
 
-Definition text_of (y : sys) (tag : string) : string :=
-  match slookup tag (texts y) with Some t => t | None => EmptyString end.
+Definition text_of (y : sys) (tag : string) : value :=
+  match slookup tag (texts y) with Some t => t | None => 0 end.
 
 (* func saveState, the part before the file operations *)
-Definition inject (now : string) (o : list (string * string)) : list (string * string) :=
+Definition inject (now : value) (o : list (string * value)) : list (string * value) :=
   sset "CURRENTTIME"%string now (sset "___2"%string comment2 (sset "___1"%string comment1 o)).
-Definition viper_set_all (o : list (string * string)) (over : config) : config :=
+Definition viper_set_all (o : list (string * value)) (over : config) : config :=
   fold_left (fun m kv => if nosave (fst kv) then m else sset (to_lower (fst kv)) (snd kv) m) o over.
 
-Definition save_state (y : sys) (now : string) (faults : list bool) : sys * list (fs entry) :=
+Definition save_state (y : sys) (now : value) (faults : list bool) : sys * list (fs entry) :=
   let o := inject now (objs y) in
   let over := viper_set_all o (v_over y) in
   let y1 := {| objs := o; texts := texts y; armed := armed y;
@@ -256,7 +267,7 @@ Definition step (y : sys) (e : event) : sys * out :=
   | Update tag obj text =>
       let sent := publish tag text in
       if String.eqb tag "NEWDASTARD" then (y, Published sent)
-      else if negb (String.eqb (text_of y tag) text)
+      else if negb (text_of y tag =? text)
       then ({| objs := sset tag obj (objs y); texts := sset tag text (texts y);
                armed := armed y || negb (nosave tag);
                v_config := v_config y; v_over := v_over y; disk := disk y |}, Published sent)
@@ -267,6 +278,9 @@ Definition step (y : sys) (e : event) : sys * out :=
       ({| objs := objs y'; texts := texts y'; armed := false;
           v_config := v_config y'; v_over := v_over y'; disk := disk y' |},
        Saved tr (map (fun f => snd (startup f)) tr))
+  | Restart =>
+      (y, Restored (filter (fun kv => mem_str (fst kv) restorable_keys)
+                           (match snd (startup (disk y)) with Some c => c | None => [] end)))
   end.
 
 Fixpoint run (y : sys) (es : list event) : sys * list out :=
